@@ -356,7 +356,35 @@ func verify(c Case, run int, rec *recorder, want []planned, portOf func(int) (in
 	return res.Violation
 }
 
+// genRamp: a ritardando written as hundreds of tiny tempo steps (each within a hundredth of a
+// BPM of its predecessor), notes during and after it; about 0.15 s of playback.
+func genRamp(t *rapid.T) Case {
+	// slow base tempo and a fine resolution: each step stays within a hundredth of a BPM of its
+	// predecessor, yet the whole ramp slows the piece down by 5..12 %
+	c := Case{Res: 15360, USPQ0: 2000000}
+	n := rapid.IntRange(150, 400).Draw(t, "rampSteps")
+	step := uint32(rapid.IntRange(300, 600).Draw(t, "rampStepMicroseconds"))
+	var tr0, tr1 []Ev
+	for i := 1; i <= n; i++ {
+		tr0 = append(tr0, Ev{Delta: uint32(rapid.IntRange(0, 1).Draw(t, "stepDelta")), Kind: "tempo", USPQ: 2000000 + uint32(i)*step})
+	}
+	// few messages with long gaps after the ramp: the player sleeps between messages and every
+	// sleep may overshoot, which would hide a schedule that runs too fast
+	for i := 0; i < 3; i++ {
+		tr0 = append(tr0, Ev{Delta: uint32(rapid.IntRange(400, 800).Draw(t, "afterRampDelta")), Kind: "note"})
+	}
+	for i := 0; i < 2; i++ {
+		tr1 = append(tr1, Ev{Delta: uint32(rapid.IntRange(500, 900).Draw(t, "otherTrackDelta")), Kind: "note"})
+	}
+	c.Tracks = [][]Ev{tr0, tr1}
+	c.Ports = map[int]int{-1: 0, 1: 1}
+	return c
+}
+
 func genCase(t *rapid.T) Case {
+	if rapid.IntRange(0, 24).Draw(t, "tempoRamp?") == 0 {
+		return genRamp(t)
+	}
 	var c Case
 	c.Res = 960
 	// one tick lasts 1..50 microseconds
@@ -401,13 +429,14 @@ func genCase(t *rapid.T) Case {
 				kind := rapid.SampledFrom([]string{"note", "note", "note", "note", "meta", "sysex", "tempo"}).Draw(t, "kind")
 				e := Ev{Delta: uint32(g - abs), Kind: kind}
 				if kind == "tempo" {
-					e.USPQ = uint32(rapid.IntRange(960, 48000).Draw(t, "uspq"))
+					// one tick lasts 1..50 us; now and then far below a microsecond
+					e.USPQ = uint32(rapid.OneOf(rapid.IntRange(960, 48000), rapid.IntRange(960, 48000), rapid.IntRange(960, 48000), rapid.IntRange(1, 959)).Draw(t, "uspq"))
 				}
 				abs = g
 				evs = append(evs, e)
 			}
 			if rapid.IntRange(0, 3).Draw(t, "offGrid?") == 0 && g+1 <= budget {
-				d := rapid.Int64Range(1, 40).Draw(t, "offGridDelta")
+				d := rapid.OneOf(rapid.Just(int64(1)), rapid.Int64Range(1, 40)).Draw(t, "offGridDelta")
 				evs = append(evs, Ev{Delta: uint32(g + d - abs), Kind: "note"})
 				abs = g + d
 			}
@@ -441,7 +470,7 @@ func genCase(t *rapid.T) Case {
 }
 
 var play = ev.NewCheck("C12", "playback",
-	"rapid: format-1 files with 1..5 tracks; 1..6 grid ticks recur in every track with 0..14 events each (one file in fifteen has a crowded tick with 100..300 events of every track) (so ticks are shared within and across tracks and the concatenation of the tracks is not ordered by time), off-grid notes, metas, sysex and tempo changes sprinkled in; resolution 960 with tempi making one tick 1..50 us (in one case of five no tempo event at tick 0, i.e. 120 BPM until the first later tempo event), whole file <= ~25 ms; channel messages of all seven kinds (note-on also with velocity 0), each unique by its bytes; Play(out) or MultiPlay with explicit, default (-1) and missing port mappings; optional track selection; read with ReadTracksFrom or (one case of four) from a temporary file with ReadTracks; in one case of five the same TracksReader is played a second time and both runs are checked; oracle on recording fake out ports (instant = time.Since(start) inside Send): every channel message of a selected, mapped track exactly once on its port, no meta event ever, per-track send order == file order, global order non-decreasing in scheduled time (exact tempo-map integral), no send before its scheduled time; sysex filtered from the comparison; non-trivial = >= 2 selected tracks, > 12 messages and a tick shared by >= 2 events of one track and by another track; distinct by case hash",
+	"rapid: format-1 files with 1..5 tracks; 1..6 grid ticks recur in every track with 0..14 events each (one file in fifteen has a crowded tick with 100..300 events of every track) (so ticks are shared within and across tracks and the concatenation of the tracks is not ordered by time), off-grid notes, metas, sysex and tempo changes sprinkled in; resolution 960 with tempi making one tick 1..50 us, now and then far below one microsecond (in one case of five no tempo event at tick 0, i.e. 120 BPM until the first later tempo event), whole file <= ~25 ms; one file in 25 is a ritardando of 150..400 tempo steps of 300..600 us per quarter from 30 BPM at resolution 15360 (each step within 0.01 BPM of its predecessor, 5..12 % in total) with a few notes at long distances after it (about 0.3 s); channel messages of all seven kinds (note-on also with velocity 0), each unique by its bytes; Play(out) or MultiPlay with explicit, default (-1) and missing port mappings; optional track selection; read with ReadTracksFrom or (one case of four) from a temporary file with ReadTracks; in one case of five the same TracksReader is played a second time and both runs are checked; oracle on recording fake out ports (instant = time.Since(start) inside Send): every channel message of a selected, mapped track exactly once on its port, no meta event ever, per-track send order == file order, global order non-decreasing in scheduled time (exact tempo-map integral), no send before its scheduled time; sysex filtered from the comparison; non-trivial = >= 2 selected tracks, > 12 messages and a tick shared by >= 2 events of one track and by another track; distinct by case hash",
 	genCase, run)
 
 func TestPropPlayback(t *testing.T) { play.Rapid(t, 150, 2000) }
